@@ -23,8 +23,8 @@ MUTATIONS = [
          old="            cls = object\n            include_subclasses = True\n", new="            cls = object\n"),
     # state that only accumulates in long histories: empty points are no longer cleaned up on a crowded timeline
     dict(prop="C01", name="audit-cleanup-skipped-on-crowded-timeline", file="partitura/score.py",
-         old="        ) == 0:\n            self._remove_point(tp)", new="        ) == 0 and len(self._points) < 14:\n            self._remove_point(tp)"),
-    # removing an object that is not registered must stay a no-op
-    dict(prop="C01", name="audit-remove-unregistered-raises", file="partitura/score.py",
-         old="        if which in (\"start\", \"both\") and o.start:\n", new="        if which in (\"start\", \"both\"):\n"),
+         old="        ) == 0:\n            self._remove_point(tp)", new="        ) == 0 and len(self._points) < 22:\n            self._remove_point(tp)"),
+    # several objects of one class in one (time point, class) bucket: removal must take out the named object, not the newest
+    dict(prop="C01", name="audit-orderedset-remove-pops-newest", file="partitura/utils/generic.py",
+         old="    def remove(self, x):\n        self.pop(x, None)", new="    def remove(self, x):\n        if x in self:\n            self.popitem()"),
 ]
